@@ -827,6 +827,13 @@ type responseChecker struct {
 }
 
 func (rw *responseChecker) EncodeToken(t xml.Token) error {
+	// A token that the encoder refuses (eg. an end element that matches
+	// nothing) is not part of the output: it must not shift the depth at which
+	// the reply is recognized.
+	err := rw.TokenWriter.EncodeToken(t)
+	if err != nil {
+		return err
+	}
 	switch tok := t.(type) {
 	case xml.StartElement:
 		_, _, id, typ := getIDTyp(tok.Attr)
@@ -837,8 +844,7 @@ func (rw *responseChecker) EncodeToken(t xml.Token) error {
 	case xml.EndElement:
 		rw.level--
 	}
-
-	return rw.TokenWriter.EncodeToken(t)
+	return nil
 }
 
 func (rw *responseChecker) Encode(v interface{}) error {
